@@ -17,7 +17,8 @@ EXPLANATION = ('(1) The real AbstractGrader.__call__ wraps a harness grader whos
                'every path ends in a value or an MITxError with the recast class. (4) BracketValidator.validate on EVERY Unicode string up to the '
                'bound against an independent stack oracle. (5) The real parser on every Unicode string up to the bound: the only outcomes are a '
                'MathExpression, UnableToParse or UnbalancedBrackets, within a per-path step budget (termination). (6) SingleListGrader on symbolic '
-               'strings over {delimiter, space, letters}: blank items / wrong counts raise MissingInput exactly as configured.')
+               'strings over {delimiter, space, letters}: blank items / wrong counts raise MissingInput exactly as configured.'
+               " Submitted texts that would disturb a message template (braces, percent directives, backslashes) are a listed catalogue, both for the generic error and for anticipated errors; list graders are called with every box count 1-6 (C01's harness).")
 ASSUMPTIONS = ['the exception catalogue is finite (introspected + listed)', 'lone surrogates excluded from the alphabet']
 BOUNDS = {'quick': 'brackets: all strings of length <= 6; parser: all strings of length <= 3; list failures: length <= 5 over a 4-character alphabet',
           'thorough': 'brackets length <= 8 (path budget), parser length <= 4, list failures length <= 6'}
